@@ -684,6 +684,14 @@ impl Context {
             }
         }
 
+        if self.sweep.is_none() {
+            // That was the last object of the sweep list, so the cycle is over. Do not wait for
+            // another iteration to notice: if this sweep freed every allocation the debt now reads
+            // zero and a debt-driven caller would otherwise stop one step short of `Phase::Sleep`.
+            self.sweep_prev.set(None);
+            return ControlFlow::Break(());
+        }
+
         ControlFlow::Continue(())
     }
 
